@@ -360,7 +360,7 @@ pub fn main_c13(env: &Env, tier: &str, seed: u64, replay: Option<&str>) -> i32 {
     }
     ev.evaluations = runs;
     ev.distinct_nontrivial = distinct.len() as u64;
-    ev.rule = "one evaluation = one `delta ... --show-config` execution of the real binary with a generated gitconfig/args/environment under one hash seed; a placement sets one probe option from 1-5 sources drawn from 30 source kinds; the gitconfig text lives, as a function of the placement, in $HOME/.gitconfig, $XDG_CONFIG_HOME/git/config, a file pulled in by include.path, the config of a repository found from the working directory, custom sections globally + main section in the repository, or a file named by --config; the lattice part enumerates every single kind and every unordered pair of kinds for each of 11 probe options (both construction orders) plus --no-gitconfig against every kind; the rest is seeded sampling. distinct_nontrivial counts distinct placements (every placement has at least one source, i.e. something for precedence to decide).".into();
+    ev.rule = "one evaluation = one `delta ... --show-config` execution of the real binary with a generated gitconfig/args/environment under one hash seed; a placement sets one probe option from 1-5 sources drawn from 30 source kinds; the gitconfig text lives, as a function of the placement, in $HOME/.gitconfig, $XDG_CONFIG_HOME/git/config, a file pulled in by include.path, the config of a repository found from the working directory, custom sections globally + main section in the repository, or a file named by --config; the lattice part enumerates every single kind and every unordered pair of kinds for each of 13 probe options (both construction orders) plus --no-gitconfig against every kind; the rest is seeded sampling. distinct_nontrivial counts distinct placements (every placement has at least one source, i.e. something for precedence to decide).".into();
     ev.counters.insert("placements".into(), placements.len() as u64);
     for pl in &placements {
         *ev.counters.entry(format!("gitconfig_location.{}", gitconfig_location(pl))).or_default() += 1;
